@@ -218,3 +218,6 @@ pub struct ExRepeatWith<F>(::core::iter::RepeatWith<F>);
 pub fn verif_repeat_take<U, F: FnMut() -> U>(f: F, n: usize) -> (r: ::core::iter::Take<::core::iter::RepeatWith<F>>)
     ensures r.obeys_prophetic_iter_laws(), r.remaining().len() == n,
 { ::core::iter::repeat_with(f).take(n) }
+/// R3: `SmallVec::inline_size()` has no counterpart for Vec; its value is left arbitrary (A-SV)
+#[verifier::external_body]
+pub fn verif_smallvec_inline_size() -> (r: usize) { unimplemented!() }
